@@ -94,6 +94,16 @@ Theorem C16_udp_size_bound_one_question : forall rq cfg m r q,
 Proof. exact top_udp_size_bound_one_question. Qed.
 Print Assumptions C16_udp_size_bound_one_question.
 
+(* the hand-over between the two middleware layers (shared size hint): TC exactly
+   when the response, after the EDNS fix-ups, exceeds the negotiated limit, which is
+   the property text's *)
+Theorem C16_hint_handover : forall rq cfg m r, hint_ok cfg -> mlen m <= 65535 ->
+  udp_response rq cfg m = Ok r ->
+  tc_set (m_b2 r) = true <->
+  (text_limit (rq_client rq) cfg < mlen (edns_post (is_some (rq_client rq)) m) \/ tc_set (m_b2 m) = true).
+Proof. exact top_hint_handover. Qed.
+Print Assumptions C16_hint_handover.
+
 (* ---- the datagram server as a whole: every path that answers a datagram ---- *)
 Theorem C16_udp_server_bound : forall x cfg svc r,
   hint_ok cfg -> Forall wf_q (firstn 1 (x_qs x)) ->
@@ -159,20 +169,17 @@ Proof. exact t1_shape_constants. Qed.
 Print Assumptions C16_t1_shape_constants.
 
 (* ---- the cookies middleware's own rejections ---- *)
-(* built from an empty builder: no question section whatever the request asked
-   (a requestor matching responses by the question discards them) *)
-Theorem C16_cookie_reject_refuted : cookie_reject_echoes_question = false ->
-  forall rq cfg k r, hint_ok cfg -> cookie_reject_response rq cfg k = Ok r ->
-  m_id r = rq_id rq /\ m_qs r = [].
-Proof. exact top_cookie_reject_refuted. Qed.
-Print Assumptions C16_cookie_reject_refuted.
-
-Theorem C16_cookie_reject_echo : cookie_reject_echoes_question = true ->
-  forall rq cfg k r, hint_ok cfg -> Forall wf_q (firstn 1 (rq_qs rq)) ->
+Theorem C16_cookie_reject_echo : forall rq cfg k r,
+  hint_ok cfg -> Forall wf_q (firstn 1 (rq_qs rq)) ->
   cookie_reject_response rq cfg k = Ok r ->
   m_id r = rq_id rq /\ m_qs r = firstn 1 (rq_qs rq) /\ mlen r <= 282.
 Proof. exact top_cookie_reject_echo. Qed.
 Print Assumptions C16_cookie_reject_echo.
+
+(* ---- the accept loop ---- *)
+Theorem C16_accept_loop_serves_all : forall evs, accept_loop evs = map is_conn evs.
+Proof. exact top_accept_loop. Qed.
+Print Assumptions C16_accept_loop_serves_all.
 
 (* ---- the stream server (EDNS non-UDP arm, edns-tcp-keepalive) ---- *)
 Theorem C16_tcp_server_framed : forall x idle svc r,
